@@ -254,6 +254,11 @@ def check(ctx):
     import c01 as _c01
     nl = core.adopt(ctx, _c01, lambda o: o["rule"] == "C01.b" and any(k in o["key"] for k in ("schedule_mutation_reaction", "schedule_insertion_reaction", "schedule_resource_mutation_reaction")), "C14.f")
     ctx.floor("C14.f", nl, 6, "shared dispatch-loop obligations of the schedulers the accessors trigger (C01.b)")
+    # ... by a loop over the registration list itself (one command per registration, read when the trigger is applied - not a
+    # count taken earlier and an index walked later, which skips an entry when a reactor revokes itself during delivery)
+    nd_ = core.adopt(ctx, _c01, lambda o: (o["rule"] == "C01.a" and o["key"].endswith(":dispatched") and any(k in o["key"] for k in (
+        "InsertionTrigger", "MutationTrigger", "ResourceMutationTrigger"))) or (o["rule"] == "C01.b" and "anchor-lost" in o["key"]), "C14.f")
+    ctx.floor("C14.f", nd_, 5, "shared dispatch obligations of the accessor-triggered kinds (C01.a)")
 
 
 def _is_entity_scheduler(prog, fr):
